@@ -39,6 +39,8 @@ pub fn verif_dir() -> PathBuf {
     PathBuf::from(std::env::var("VERIF_ROOT").unwrap_or_else(|_| "/verif".to_string()))
 }
 
+pub static CHECK_NANOS: AtomicU64 = AtomicU64::new(0);
+
 pub struct CaseReport {
     pub nontrivial: bool,
     /// hash identifying the case (for counting distinct non-trivial cases)
@@ -432,7 +434,13 @@ pub fn run_property<P: Property>(prop: &P, tier: Tier, seed: u64) -> RunOutcome 
                         (watch.start.elapsed().as_millis() as u64).max(1),
                         Ordering::SeqCst,
                     );
+                    let t_case = Instant::now();
                     let verdict = guard(|| prop.check_raw(&raw));
+                    CHECK_NANOS.fetch_add(t_case.elapsed().as_nanos() as u64, Ordering::Relaxed);
+                    if t_case.elapsed().as_secs() >= 3 && std::env::var("VERIF_TRACE_SLOW").is_ok() {
+                        let d = format!("{raw:?}");
+                        eprintln!("slow case {:.1}s on worker {w}: {}", t_case.elapsed().as_secs_f64(), &d[..d.len().min(300)]);
+                    }
                     watch.slots[w].store(0, Ordering::SeqCst);
                     let verdict = match verdict {
                         Ok(v) => v,
@@ -483,6 +491,9 @@ pub fn run_property<P: Property>(prop: &P, tier: Tier, seed: u64) -> RunOutcome 
                     }
                 });
                 watch.slots[w].store(0, Ordering::SeqCst);
+                if std::env::var("VERIF_TRACE_SLOW").is_ok() {
+                    eprintln!("worker {w} done after {:.1} s", watch.start.elapsed().as_secs_f64());
+                }
                 match result {
                     Ok(()) => {}
                     Err(TestError::Fail(_, _)) => {
@@ -502,6 +513,10 @@ pub fn run_property<P: Property>(prop: &P, tier: Tier, seed: u64) -> RunOutcome 
         }
     });
     finished.store(true, Ordering::SeqCst);
+    if std::env::var("VERIF_TRACE_SLOW").is_ok() {
+        eprintln!("random stage: {:.1} cpu-seconds inside check_raw, {:.1} s wall", CHECK_NANOS.load(Ordering::Relaxed) as f64 / 1e9, watch.start.elapsed().as_secs_f64());
+        eprintln!("mid-size cases: {:.1} cpu-seconds in total", crate::scale::MID_NANOS.load(Ordering::Relaxed) as f64 / 1e9);
+    }
 
     stats.merge(merged.into_inner().unwrap());
     known_hits.extend(known_hits_m.into_inner().unwrap());
